@@ -75,10 +75,10 @@ def run(mod, tier, seed, replay=None):
         model = [None] * len(cases)
 
     def recheck(line):
-        i2, _, _ = C.run_lines(hbin, hargs, [line], timeout=120, env=henv)
+        i2, _, _ = C.run_lines(hbin, hargs, [line], timeout=300, env=henv)
         m2 = [None]
         if have_driver:
-            m2, _, _ = C.run_lines(C.driver_bin(), [prop], [model_case(line, i2[0])], timeout=120)
+            m2, _, _ = C.run_lines(C.driver_bin(), [prop], [model_case(line, i2[0])], timeout=300)
         return i2[0], m2[0]
 
     disagreements, pviol = [], []
